@@ -183,6 +183,94 @@ func c19Conc(ctx *core.Ctx, res *core.Result) {
 	}
 	wg.Wait()
 	res.Count("concurrent_first_run_steps", int64(steps))
+	// a commit arrives while the run is paused before step k (its push of
+	// the POLICY file may then be rejected); afterwards one more undisturbed
+	// run must make the newest revision current
+	for k := 1; k <= steps; k += stride {
+		wg.Add(1)
+		sem <- struct{}{}
+		go func(k int) {
+			defer wg.Done()
+			defer func() { <-sem }()
+			box, err := root.clone(filepath.Join(base, fmt.Sprintf("c%d", k)))
+			if err != nil {
+				return
+			}
+			defer os.RemoveAll(box.dir)
+			first, ctrl := box.startPaused(k, "first")
+			ev := []string{"run", "commit-good", fmt.Sprintf("newpolicy.sh paused before step %d", k), "commit-good (while paused)", "resume"}
+			add := func(sig, msg string) {
+				mu.Lock()
+				c19Violation(res, ev, sig, msg)
+				mu.Unlock()
+			}
+			done := make(chan int, 1)
+			go func() {
+				code := 0
+				if err := first.Wait(); err != nil {
+					code = -1
+					if ee, ok := err.(*exec.ExitError); ok {
+						code = ee.ExitCode()
+					}
+				}
+				done <- code
+			}()
+			paused := false
+			for end := time.Now().Add(180 * time.Second); time.Now().Before(end); {
+				if _, err := os.Stat(filepath.Join(ctrl, "paused")); err == nil {
+					paused = true
+					break
+				}
+				select {
+				case <-done:
+					return
+				default:
+					time.Sleep(5 * time.Millisecond)
+				}
+			}
+			if !paused {
+				syscall.Kill(-first.Process.Pid, syscall.SIGKILL)
+				return
+			}
+			maxB := box.maxN
+			before := box.observe()
+			if err := box.commit("commit-good"); err != nil {
+				syscall.Kill(-first.Process.Pid, syscall.SIGKILL)
+				mu.Lock()
+				res.Broken = append(res.Broken, "commit while paused: "+err.Error())
+				mu.Unlock()
+				return
+			}
+			os.WriteFile(filepath.Join(ctrl, "resume"), []byte("go"), 0644)
+			select {
+			case <-done:
+			case <-time.After(180 * time.Second):
+				syscall.Kill(-first.Process.Pid, syscall.SIGKILL)
+				add("commit-during-run:hangs", "the run did not finish after being resumed")
+				return
+			}
+			mu.Lock()
+			res.Evaluations++
+			res.Nontrivial++
+			res.Transitions += 2
+			res.Count("commit_during_run_cases", 1)
+			mu.Unlock()
+			st := box.observe()
+			if sig, msg := box.invariants(st, before, maxB); sig != "" {
+				add("commit-during-run:"+sig, msg+"\nstate: "+st.canon())
+			}
+			lv := box.run(0, "live")
+			lst := box.observe()
+			cur := filepath.Join(box.dir, "base", "policies", lst.Current)
+			if lv.exit != 0 || lst.Current == "" || readTrim(filepath.Join(cur, "src", "data")) != lst.RemoteData {
+				add("commit-during-run:next-run-does-not-catch-up", fmt.Sprintf("after a commit during the run (paused before step %d) and one more undisturbed run (exit %d) the newest revision is not current: %s", k, lv.exit, lst.canon()))
+			}
+			if sig, msg := box.invariants(lst, st, box.maxN); sig != "" && sig != "policy-number-not-increasing" {
+				add("commit-during-run:after-next-run:"+sig, msg)
+			}
+		}(k)
+	}
+	wg.Wait()
 }
 
 func init() { c19Concurrent = c19Conc }
